@@ -1,4 +1,5 @@
 """C12 - unwrap dedent: four structural clauses."""
+import re
 from .. import absint as A
 from .. import linear
 from .. import tree as T
@@ -29,22 +30,48 @@ def run(ctx, res):
     block_ranges_sorted(ctx, res, "C12.R5")
 
 
+def dedent_amount_let(P, b):
+    """The `let` in BlockIndentRemover::format that defines the dedent amount: the local added to the range start inside
+    the `min(start + AMOUNT, first non-blank)` that gives the range end (found by role, not by name; followed through a
+    same-file helper that builds the range)."""
+    src_file = (b["tree"].get("sp") or [None])[0]
+    cands = [(b, None)]
+    for c in T.nodes(b["tree"], "call"):
+        h = P.bodies.get(T.callee(c) or "")
+        if h is not None and h is not b and (h["tree"].get("sp") or [0])[0] == src_file:
+            cands.append((h, c))
+    for body, call in cands:
+        lets = {s["pat"]["id"]: s for s in T.nodes(body["tree"], "let") if s["pat"]["p"] == "bind"}
+        for n in T.nodes(body["tree"], "struct"):
+            if {f["name"] for f in n["fields"]} != {"start", "end"} or "Range" not in (n["res"].get("path") or n.get("ty") or ""):
+                continue
+            fe = {f["name"]: T.peel(f["e"]) for f in n["fields"]}
+            if T.local_of(fe["start"]) is None or T.local_of(fe["end"]) is None:
+                continue
+            d = lets.get(T.local_of(fe["end"]))
+            d = T.peel(d["init"]) if d is not None and d.get("init") is not None else None
+            if d is None or T.min_args(d) is None:
+                continue
+            a0 = T.peel(T.min_args(d)[0])
+            if a0.get("k") == "binary" and a0["op"] == "+" and T.local_of(a0["l"]) == T.local_of(fe["start"]):
+                lid = T.local_of(a0["r"])
+                if lid in lets:
+                    return lets[lid] if body is b else None
+                if call is not None:
+                    idx = [k for k, p_ in enumerate(body["params"]) if p_["pat"]["p"] == "bind" and p_["pat"]["id"] == lid]
+                    if len(idx) == 1:
+                        blets = {s["pat"]["id"]: s for s in T.nodes(b["tree"], "let") if s["pat"]["p"] == "bind"}
+                        return blets.get(T.local_of(T.peel_ref(call["args"][idx[0]])))
+    return None
+
+
 def saturating_amount(ctx, res, rule):
     P = ctx.lib
     b = P.fn("BlockIndentRemover::format")
     fn = fshort(b)
-    subs = []
-    for n in T.nodes(b["tree"]):
-        if n.get("k") == "binary" and n["op"] == "-" and (n.get("ty") == "usize"):
-            subs.append(n)
-    sat = [n for n in T.nodes(b["tree"], "mcall") if n["name"] == "saturating_sub"]
-    # the dedent amount: the local added to `start` for the range end
-    amount = None
-    for s in T.nodes(b["tree"], "let"):
-        if s["pat"]["p"] == "bind" and s["pat"]["name"] == "indent_len":
-            amount = s
+    amount = dedent_amount_let(P, b)
     if amount is None or amount.get("init") is None:
-        res.cannot(rule, fn, "amount", "dedent amount `indent_len` not found", T.loc(b["tree"]))
+        res.cannot(rule, fn, "amount", "the dedent amount (the local added to the range start) was not found", T.loc(b["tree"]))
         return
     init = T.peel(amount["init"])
     r = T.render(init)
@@ -68,10 +95,16 @@ def amount_from_first_line(ctx, res, rule):
     b = P.fn("BlockIndentRemover::format")
     fn = fshort(b)
     lets = {s["pat"]["name"]: s for s in T.nodes(b["tree"], "let") if s["pat"]["p"] == "bind" and s.get("init") is not None}
-    amount = lets.get("indent_len")
-    if amount is None:
+    amount = dedent_amount_let(P, b)
+    if amount is None or amount.get("init") is None:
         res.cannot(rule, fn, "amount", "dedent amount not found", T.loc(b["tree"]))
         return
+    pn = [p_["pat"].get("name") for p_ in b["params"]]
+    if len(pn) != 4 or None in pn[1:]:
+        res.cannot(rule, fn, "params", "format(&self, content, start, end) expected", T.loc(b["tree"]))
+        return
+    cn, sn = pn[1], pn[2]
+    byte_views = {nm for nm, s_ in lets.items() if T.render(s_["init"]) == "%s.as_bytes()" % cn}
     init = T.peel(amount["init"])
     if not (init.get("k") == "mcall" and init["name"] in ("saturating_sub", "checked_sub")):
         return   # judged by R2
@@ -89,7 +122,7 @@ def amount_from_first_line(ctx, res, rule):
     why = []
     if first_d.get("k") == "call" and T.callee(first_d) in P.bodies:
         args = [T.render(resolve(a)) for a in first_d["args"]]
-        extra = [a for a in args if a not in ("content", "(start_byte_pos + 1)", "bytes", "content.as_bytes()")]
+        extra = [a for a in args if a not in {cn, "(%s + 1)" % sn, "%s.as_bytes()" % cn} | byte_views]
         if extra:
             ok = False
             why.append("the first-line indentation is computed from %s (it must depend on the first inner line only, i.e. on content and start_byte_pos + 1)" % extra)
@@ -104,9 +137,10 @@ def amount_from_first_line(ctx, res, rule):
     else:
         ok = False
         why.append("first-line indentation is `%s`, not a measurement of the line behind the seam" % T.render(first_d)[:80])
-    if T.render(ofs_d) != "match find_prev_line_break_pos(content, bytes, start_byte_pos, true) { Some(pos) => ((start_byte_pos - pos) - 1), None => 0 }":
+    if True:
         tr = T.render(ofs_d)
-        if not ("find_prev_line_break_pos(content, bytes, start_byte_pos, true)" in tr and "start_byte_pos - pos" in tr):
+        calls_ok = any(("find_prev_line_break_pos(%s, %s, %s, true)" % (cn, bv, sn)) in tr for bv in byte_views | {"%s.as_bytes()" % cn})
+        if not (calls_ok and re.search(r"\(%s - \w+\)" % re.escape(sn), tr)):
             ok = False
             why.append("the tag indentation is `%s`, not the distance from the seam back to the previous line break" % tr[:100])
     if ok:
